@@ -24,6 +24,11 @@ CHECKS.update({
         text="Exploration. Generated graphs (IRIs with odd local names and non-ASCII, bnode trees/cycles/self-loops/unreferenced and multiply-referenced nodes, well-formed, shared-tail, extra-property, cyclic, ring-shaped and malformed rdf:List structures, literals over every recognised datatype, language tags, arbitrary Unicode, falsy values) are serialised with each of the 8 serializers under option combinations (base, bind_namespaces, user prefixes on nested namespaces) and parsed back; rv.iso (own bijection search, own literal key) must find the result isomorphic; serialisation must finish within a logical step budget and must not change the graph. Nine listed findings (Turtle decimal/double shorthand, several pretty-xml losses, JSON-LD unrooted cycles and malformed lists) are carved out by input predicates and replayed on every run.",
         note="RDF/XML family restricted to what XML 1.0 can express (predicates splitting into namespace+NCName, XML Char text). Literals come from the normalising constructor. HexTuples: plain == xsd:string only.",
         ref="DESIGN.md §3 C03"),
+    "C12": dict(
+        technique="runtime monitoring: histories of parse calls into one target with a conservation-law oracle (old content kept exactly; added content isomorphic to the document; blank nodes renamed apart)",
+        text="Exploration. Sequences of 2-5 documents in any mix of nine parsers (nt, nquads, turtle, trig, n3, rdf/xml, trix, json-ld, hext) are parsed into one Graph or Dataset that already has content. Documents are rendered by the harness's own minimal writers with explicit _:labels from a small shared pool that includes labels equal to ids of nodes already in the target and rdflib-looking N<hex> ids; the same document is often parsed twice; some are truncated so the parse fails half-way. After each parse: old content is a subset of the new content exactly; the added statements are isomorphic to the document's own graph (so a label repeated inside one document, across its named graphs too, is one node); no added blank node is a node that was already there; two fresh parses of one document are isomorphic. JSON-LD and HexTuples keep document labels (listed findings, pinned by the repository's tests) and are carved out for documents that use blank nodes.",
+        note="Plain Graph targets get triple-format documents only. A failed parse only has to keep the old content.",
+        ref="DESIGN.md §3 C12"),
     "C14": dict(
         technique="runtime monitoring: differential of rdflib.compare against an independent refinement+backtracking bijection search on generated (graph, perturbed copy) pairs",
         text="Exploration. Pairs (G, H) where H is a relabelled/shuffled copy of G, optionally with one edge rewired, reversed, re-predicated, dropped or a ground triple changed; G from random bnode graphs and from symmetric families where colour refinement cannot split cells (cycles, K_mn, disjoint identical components, circulants, Petersen, hypercubes, C6 vs 2xC3). isomorphic(), to_isomorphic equality, equality of canonical graphs, the three graph_diff parts and the skolemise/de-skolemise round trip are compared with the oracle's answer. rdflib's search runs under a per-case wall watchdog; timeouts are counted as skipped.",
